@@ -694,6 +694,11 @@ def parse_program(text, flavour=""):
         m = re.match(r"^(alloc\d+) \(.*size: (\d+), align: \d+\) \{", ln)
         if m:
             name, size = m.group(1), int(m.group(2))
+            ms = re.match(r"^alloc\d+ \(static: ([^,]+),", ln)
+            if ms:
+                if not hasattr(prog, "alloc_static"):
+                    prog.alloc_static = {}
+                prog.alloc_static[name] = ms.group(1).strip()
             data = bytearray()
             i += 1
             while i < n and not lines[i].startswith("}"):
